@@ -140,6 +140,10 @@ def gen_cases(ctx):
 
 
 def correspond(ctx):
+    return [correspond_functions(ctx), correspond_datagrams(ctx)]
+
+
+def correspond_functions(ctx):
     compress, expand = _impl()
     res = CorrResult(suite="zerocode impl vs extracted model",
                      rule="every string over {00,01,FF} up to length %d (exhaustive), every zero run 0..1100 in 4 contexts, "
@@ -185,6 +189,142 @@ def correspond(ctx):
     res.distribution = dist
     res.exhaustive = False
     res.samples = [{"kind": k, "input_hex": s.hex()[:80], "len": len(s)} for k, s in cases[40:43] + cases[-3:]]
+    return res
+
+
+# --------------------------------------------------------------------------
+# zero-coding as the datagram codec uses it (header peek, extra bytes, body) - impl-level oracle against the reference
+
+def _codec():
+    from hippolyzer.lib.base.message.udpserializer import UDPMessageSerializer
+    from hippolyzer.lib.base.message.udpdeserializer import UDPMessageDeserializer
+    from hippolyzer.lib.base.settings import Settings
+    st = Settings()
+    st.ENABLE_DEFERRED_PACKET_PARSING = False
+    return UDPMessageSerializer(), UDPMessageDeserializer(settings=st)
+
+
+def _observe(de, datagram: bytes):
+    try:
+        m = de.deserialize(datagram)
+        return "OK %s extra=%s body=%r" % (m.name, bytes(m.extra or b"").hex(), m.to_dict()["body"])
+    except Exception as e:       # noqa
+        return "EXC"
+
+
+def noncanonical(rng, plain: bytes) -> bytes:
+    """an encoding of `plain` under the reference semantics that the encoder would not produce: zero runs split at random
+    points, wrap-around form (00 00 .. n) for runs >= 256, a trailing lone zero for a final single zero"""
+    out = bytearray()
+    i, n = 0, len(plain)
+    while i < n:
+        if plain[i] != 0:
+            out.append(plain[i])
+            i += 1
+            continue
+        j = i
+        while j < n and plain[j] == 0:
+            j += 1
+        run = j - i
+        i = j
+        while run > 0:
+            if run >= 256 and rng.random() < 0.6:
+                k = rng.randrange(1, min(run // 256, 3) + 1)
+                rem = run - 256 * k
+                c = rng.randrange(1, min(rem, 255) + 1) if rem >= 1 else None
+                if c is None:
+                    k -= 1
+                    if k == 0:
+                        continue
+                    c = min(run - 256 * k, 255)
+                out += b"\x00" * (k + 1) + bytes([c])
+                run -= 256 * k + c
+            elif run == 1 and i >= n and rng.random() < 0.5:
+                out += b"\x00"
+                run = 0
+            else:
+                c = rng.randrange(1, min(run, 255) + 1)
+                out += bytes([0, c])
+                run -= c
+    return bytes(out)
+
+
+def datagram_cases(ctx):
+    from hippolyzer.lib.base.message.message import Message, Block
+    from hippolyzer.lib.base.datatypes import UUID
+    rng = ctx.rng
+    extras = [b""] + [bytes(k) for k in (1, 2, 3, 4, 5, 8, 9, 16, 100, 255)] + [b"\x01" * k for k in (1, 4, 9, 255)]
+    extras += [bytes(k) + b"\x07" for k in (1, 3, 9, 254)] + [b"\x07" + bytes(k) for k in (1, 3, 9, 254)]
+    extras += [bytes(rng.choice((0, 0, 0, 1, 255)) for _ in range(rng.randrange(1, 256))) for _ in range(ctx.pick(20, 200))]
+    msgs = []
+    for ex in extras:
+        for pid in (0, 1, 0x01000000, 0xffffffff):
+            msgs.append(Message("StartPingCheck", Block("PingID", PingID=rng.choice((0, 1, 255)), OldestUnacked=rng.choice((0, 1, 256, 2 ** 32 - 1))),
+                                flags=0x80, packet_id=pid))
+            msgs[-1].extra = ex
+        msgs.append(Message("PacketAck", *[Block("Packets", ID=rng.choice((0, 1, 2 ** 24))) for _ in range(rng.choice((0, 1, 3, 70)))],
+                            flags=0x80, packet_id=5))
+        msgs[-1].create_block_list("Packets")
+        msgs[-1].extra = ex
+        text = bytes(rng.choice((0, 0, 65)) for _ in range(rng.choice((0, 1, 255, 256, 600, 1000))))
+        msgs.append(Message("ChatFromViewer", Block("AgentData", AgentID=UUID(int=0), SessionID=UUID(int=rng.choice((0, 1, 1 << 64)))),
+                            Block("ChatData", Message=text + b"\x01", Type=0, Channel=0), flags=0x80 | 0x40, packet_id=6))
+        msgs[-1].extra = ex
+    return msgs
+
+
+def correspond_datagrams(ctx):
+    res = CorrResult(suite="zero-coded datagrams through the real serializer/deserializer vs the reference semantics (impl-level oracle)",
+                     rule="StartPingCheck / PacketAck / ChatFromViewer with the ZEROCODED flag, packet ids with zero bytes, extra header "
+                          "bytes of length 0..255 (all zero, all non-zero, zeros around a non-zero byte, random) and bodies with zero runs up "
+                          "to 1000: (1) the datagram the serializer produces decodes to the same name, extra bytes and body; (2) its encoded "
+                          "part expands under the independent reference to exactly the un-zero-coded datagram; (3) every non-canonical "
+                          "re-encoding of that part (split runs, wrap-around forms, trailing lone zero) decodes to the same observation as "
+                          "the un-zero-coded datagram; non-trivial = datagrams whose header area (message number + extra) contains a zero run")
+    ser, de = _codec()
+    n = nt = 0
+    for m in datagram_cases(ctx):
+        try:
+            want_extra = bytes(m.extra or b"")
+            d = bytes(ser.serialize(m))
+            m.send_flags = m.send_flags & ~0x80
+            plain = bytes(ser.serialize(m))
+        except Exception as e:       # noqa
+            res.impl_violations.append({"clause": "serializer accepts a conformant message", "class": "serialize-raised",
+                                        "detail": "%s: %s" % (type(e).__name__, str(e)[:100])})
+            continue
+        n += 3
+        if b"\x00" in want_extra:
+            nt += 1
+        ref_obs = _observe(de, plain)
+        got = _observe(de, d)
+        base = {"datagram": d.hex()[:400], "plain": plain.hex()[:400], "extra_len": len(want_extra)}
+        if py_ref(d[6:]) != plain[6:] or d[:6] != bytes([plain[0] | 0x80]) + plain[1:6]:
+            res.impl_violations.append(dict(base, clause="the serializer's zero-coded datagram expands (reference semantics) to the plain datagram",
+                                            **{"class": "encoded-datagram-not-reference"}))
+        elif got != ref_obs or got == "EXC":
+            res.impl_violations.append(dict(base, clause="a zero-coded datagram decodes to the message it encodes (name, extra bytes, body)",
+                                            **{"class": "zerocoded-datagram-decodes-differently"}, got=got[:200], want=ref_obs[:200]))
+        for _ in range(2):
+            nc = d[:6] + noncanonical(ctx.rng, plain[6:])
+            if py_ref(nc[6:]) != plain[6:]:
+                continue        # (generator slip: never report it against the implementation)
+            n += 1
+            g2 = _observe(de, nc)
+            if g2 != ref_obs:
+                res.impl_violations.append(dict(base, clause="the decoder agrees with the reference semantics on non-canonical encodings "
+                                                             "(wrap-around runs, split runs, trailing lone zero) of a whole datagram",
+                                                **{"class": "noncanonical-datagram-decodes-differently"}, encoded=nc.hex()[:400],
+                                                got=g2[:200], want=ref_obs[:200]))
+    seen, keep = set(), []
+    for v in res.impl_violations:
+        if v["class"] not in seen:
+            seen.add(v["class"])
+            keep.append(v)
+    res.impl_violations = keep
+    res.evaluations = n
+    res.distinct_nontrivial = nt
+    res.samples = []
     return res
 
 
